@@ -98,6 +98,13 @@ CHECKS = {
         "trusted: SIGKILL keeps the page cache (no power-loss model); one DuckDB engine call is atomic thanks to its WAL; the reference observations come from clean exits of the same implementation, themselves checked against the pre-exit committed view",
         "exhaustive crash-point (fault) enumeration over all engine-call boundaries of all histories within the depth bound, with a differential committed-state oracle",
     ),
+    "C09": (
+        "E1-bfs",
+        "model_checking",
+        "explicit-state BFS over DDL histories (CREATE [OR REPLACE] TABLE/VIEW, CTAS, CLONE, ALTER add/drop/rename column, rename table, set comment, COMMENT ON, DROP, re-CREATE over two schemas and two databases, no-op statements in between) plus explicit deeper name-collision histories; states deduplicated on (raw-DuckDB catalog incl. fakesnow side tables, model state); for every distinct state the full reporting sweep (information_schema.tables/columns/views/databases, DESCRIBE TABLE/VIEW, SHOW TABLES/OBJECTS/SCHEMAS in account/database/schema scope and TERSE, SHOW PRIMARY KEYS, description of SELECT *) is compared with a dict model and the reporters with each other",
+        "trusted: the model's encoding of Snowflake metadata semantics (CTAS/RENAME keep VARCHAR lengths, DROP forgets comments); not demanded: created_on/owner columns, INFORMATION_SCHEMA's own rows, FLOAT precision, comment of a CLONE",
+        "explicit-state model checking (depth-bounded BFS with ground-truth state dedupe) against a catalog metadata reference model",
+    ),
 }
 
 NOT_BUILT = "check not built yet in this round (planned per DESIGN.md §3); no claim is made"
